@@ -375,6 +375,10 @@ def _copy_val(v, memo):
         memo[k] = n
         n.extend(_copy_val(x, memo) for x in v)
         return n
+    if hasattr(v, "copy_val"):
+        n = v.copy_val(memo, _copy_val)      # abstract objects that own other abstract objects copy them through the same memo
+        memo[k] = n
+        return n
     n = copy.copy(v)
     memo[k] = n
     if hasattr(n, "__dict__"):
